@@ -88,6 +88,11 @@ SOURCES = {
 OPS = ["compile:A", "compile:B", "compile:C", "compile:D", "compile:E", "compile:F", "split:A", "split:B", "format:A", "format:C"]
 HASH_SOURCES = dict(SOURCES)
 HASH_SOURCES["G"] = {"files": {"g.emb": G_TEXT.replace("  let r = q +\n", "")}, "main": "g.emb"}
+_imps = {"i%d.emb" % k: "struct S%s:\n  0 [+1]  UInt  x\n" % "abcdef"[k].upper() + "x" for k in range(6)}
+_imps = {"i%d.emb" % k: "struct T%sx:\n  0 [+1]  UInt  x\n" % "abcdef"[k] for k in range(6)}
+HASH_SOURCES["I"] = {"files": dict(_imps, **{"i.emb": "".join('import "i%d.emb" as m%d\n' % (k, k) for k in (3, 0, 5, 1, 4, 2)) +
+                                              "struct Ii:\n" + "".join("  %d [+1]  m%d.T%sx  f%d\n" % (k, k, "abcdef"[k], k) for k in range(6))}),
+                     "main": "i.emb"}
 HASH_SOURCES["H"] = {"files": {"h.emb": G_TEXT}, "main": "h.emb"}
 
 
